@@ -745,3 +745,9 @@ impl ReadSource for OpenDALReadSource {
         OpenDALLister(self.entries.clone().into_iter(), self.be.clone())
     }
 }
+
+#[cfg(rustic_core_verif)]
+#[allow(missing_docs, unused_imports, dead_code, clippy::all, clippy::pedantic, clippy::nursery)]
+pub mod verif_hooks {
+    use super::*;
+}
